@@ -195,9 +195,12 @@ def load_known(prop):
             if not line or line.startswith("#"):
                 continue
             if line.startswith("known:"):
-                kv = dict(re.findall(r"(\w+)=(\S+)", line))
+                head, _, text = line[len("known:"):].partition(" -- ")
+                kv = dict(re.findall(r"(property|kind)=(\S+)", head))
+                m = re.search(r"\bmatch=(.*)$", head.strip())
+                kv["match"] = m.group(1).strip() if m else ""
                 if kv.get("property") == prop:
-                    kv["text"] = line.split(" -- ", 1)[1] if " -- " in line else line
+                    kv["text"] = text or line
                     known.append(kv)
             elif line.startswith("fixed:"):
                 fixed.append(line)
